@@ -7,6 +7,8 @@ Line-protocol driver for C16 (see `harness/src/props/c16.rs` for the implementat
   P h=<0|1> p=<hex utf-8>                         PathBufWrap::parse_path(p, hidden)
   S c=<flags|-> m=<METHOD> u=<uri path text> [r=<hex Range value>] [im=<tags>] [inm=<tags>]
     [ius=<off|bad>] [ims=<off|bad>]               one request to `Files::new("/", root)` on the fixed tree
+  T len=<n> cut=<k> [r=<hex Range value>]         NamedFile::open + into_response, file truncated to k bytes
+                                                  before the body stream is polled
 
 flags: h use_hidden_files, i index_file("index.html"), l show_files_listing,
        r redirect_to_slash_directory, E use_etag(false), M use_last_modified(false), s sync reads
@@ -20,7 +22,11 @@ open ActixModel.Util ActixModel.Files ActixModel.Range
 def bs (s : String) : Bytes := bytesOfString s
 
 /-- content of file `id` at index `i` (same formula in the harness) -/
-def contentByte (id i : Nat) : UInt8 := UInt8.ofNat ((i * 7 + id * 13 + (i / 251) * 3) % 256)
+def contentByte (id i : Nat) : UInt8 :=
+  let x := ((i + 1) * 2654435761 + id * 1013904223) % 4294967296
+  let x := x ^^^ (x >>> 15)
+  let x := (x * 2246822519) % 4294967296
+  UInt8.ofNat (x >>> 24)
 
 def fileContent (id len : Nat) : Bytes := (List.range len).map (contentByte id)
 
@@ -207,11 +213,27 @@ def runS (ws : List String) : String :=
           showResp (fileContent id len) (intoResponse fmeta cond range)
       | _, _, _, _, _ => "badcase"
 
+/-- `T len=<n> cut=<k> [r=<hex>]`: `NamedFile::open` on an n-byte file, `into_response`, then the
+file is cut to k bytes before the body is read -/
+def runT (ws : List String) : String :=
+  let len := kvNat ws "len" 0
+  let cut := kvNat ws "cut" 0
+  if len > 200000 || cut > len then "badcase"
+  else
+    match (match kv ws "r" with
+           | none => some RangeHdr.absent
+           | some h => (bytesOfHex h).bind classifyRange) with
+    | none => "badcase"
+    | some range =>
+      let fmeta : FileMeta := { len := len, etag := some ⟨false, fileTag⟩, lastModified := some t0 }
+      showResp ((fileContent 50 len).take cut) (intoResponse fmeta {} range)
+
 def run (line : String) : String :=
   let ws := words line
   match ws with
   | "P" :: rest => runP rest
   | "S" :: rest => runS rest
+  | "T" :: rest => runT rest
   | _ => "badcase"
 
 end ActixModel.Drv.C16
